@@ -32,7 +32,7 @@ CHECK_MV_ROUNDTRIP = os.environ.get("C08_MV_ROUNDTRIP", "1") == "1"
 CHECK_DAMAGED = os.environ.get("C08_DAMAGED", "1") == "1"
 # V cases (validation frame filled by holdout / dss): need "fix: the validation dataframe filled by holdout / dss
 # has no class map ..." (findings/C08.json, branch wt5-c08); default off until it is in /repo
-CHECK_VALIDATION_FRAME = os.environ.get("C08_VALIDATION_FRAME", "0") == "1"
+CHECK_VALIDATION_FRAME = os.environ.get("C08_VALIDATION_FRAME", "1") == "1"
 WORD_RE = re.compile(r"^[A-Za-z_][A-Za-z_0-9]*$")
 
 
